@@ -187,7 +187,7 @@ func codeText(n ast.Node) string {
 }
 
 // ixBodies: the statement-by-statement text (comments dropped, white space normalised) of the functions that
-// Model/Ix.lean transliterates with checked index and slice operations.  C17 pins it: the index-level model was
+// Model/Ix.lean and Model/IxTree.lean transliterate with checked index and slice operations.  C17 pins it: the index-level model was
 // written from exactly this text, so an edit of one of these bodies breaks the obligation and the check searches
 // for a failing input.
 func ixBodies(pkgs map[string]*pkgInfo) {
@@ -195,6 +195,7 @@ func ixBodies(pkgs map[string]*pkgInfo) {
 		"origins.parseScheme", "origins.parsePort", "origins.fastParseHost", "origins.lastByte",
 		"origins.splitAtCommonSuffix", "headers.TrimOWS", "headers.trimLeftOWS", "headers.trimRightOWS",
 		"headers.cutAtComma", "headers.First", "origins.insert", "util.MakeASCIISet", "util.(*ASCIISet).Contains", "headers.Check", "util.(SortedSet).IndexAfter", "origins.Parse", "origins.(*Tree).Contains", "origins.(*node).contains",
+		"origins.(*Tree).Insert", "origins.(*node).add", "origins.(*node).upsertEdge", "origins.deleteSameSign", "origins.(*node).elems", "origins.(*Tree).Elems",
 	}
 	found := map[string]string{}
 	for _, p := range pkgs {
